@@ -366,6 +366,10 @@ def shapeClass (op : String) (a : List Arg) (p : List Nat) : String :=
   | _ =>
     if op == "shl" ∨ op == "shr" ∨ op == "rotl" ∨ op == "rotr" then
       (if p0 > (v 0).length then "amount-gt-width" else "amount-le-width")
+    else if op == "mux" ∨ op == "muxz" then
+      (if (v 0).allDef && (v 0).toNat ≥ a.length - 1 then "selector-out-of-range" else "selector-in-range")
+    else if op == "dbit" then
+      (if (v 1).allDef && (v 1).toNat ≥ (v 0).length then "index-out-of-range" else "index-in-range")
     else if op == "cat" ∨ op == "pack" then
       (if a.any (fun x => x.v.isEmpty) then "zero-width-operand" else "-")
     else if (v 0).isEmpty then "zero-width" else "-"
